@@ -179,6 +179,8 @@ fn collect_types_to_bind(
     let types_from_fields = |fields: &Punctuated<syn::Field, _>| -> Vec<(Type, bool)> {
         fields
             .iter()
+            // Fields marked `#[codec(skip)]` are not part of the type info.
+            .filter(|f| !utils::should_skip(&f.attrs))
             // A field with `#[codec(encoded_as = "..")]` is described by that type.
             .map(|f| {
                 let ty = utils::maybe_encoded_as(f).unwrap_or_else(|| f.ty.clone());
@@ -207,6 +209,8 @@ fn collect_types_to_bind(
         syn::Data::Enum(ref data) => data
             .variants
             .iter()
+            // Variants marked `#[codec(skip)]` are not part of the type info.
+            .filter(|variant| !utils::should_skip(&variant.attrs))
             .flat_map(|variant| match &variant.fields {
                 syn::Fields::Named(syn::FieldsNamed { named: fields, .. })
                 | syn::Fields::Unnamed(syn::FieldsUnnamed {
